@@ -26,6 +26,9 @@ def one(e, base):
         for p in glob.glob(os.path.join(d, 'optree', '**', '*.py'), recursive=True):
             out, _ = rename_module(open(p).read(), posonly=bool(e.get('posonly')))
             open(p, 'w').write(out)
+    elif e.get('generator') == 'py-shuffle':
+        from py_shuffle import main as shuffle
+        shuffle(d)
     elif e.get('generator') == 'insert-noops':
         from insert_noops import main as noops
         noops(d)
